@@ -815,6 +815,35 @@ theorem modifyM_descent_eq (dev : Dev) (hsib : dev.descentSiblings = false) (m :
   simp only [modifyM, modifyCore, last_not_descent pre rest hne hnd, Bool.false_eq_true, if_false, Bool.false_and, hx,
     hmain, hres, unwrap]
 
+/-! ## hit at the outermost selected locations -/
+
+/-- a selected location that has no selected location above it holds the modifier's result — on the subtree as it is after
+the edits inside it (nested selections occur below a descent only) -/
+theorem updAll_hit_outer (m : JV → JV) : ∀ (p : Path) (T : List Path) (d c : JV), p ∈ T →
+    (∀ p' ∈ T, p'.isPrefixOf p = true → p' = p) → valAt p d = some c → ∃ c', valAt p (updAll m T d) = some (m c')
+  | [], T, d, c, hp, _, _ => by
+    rw [updAll_eq, (hasNil_iff T).2 hp]
+    exact ⟨_, rfl⟩
+  | l :: q, T, d, c, hp, hout, hv => by
+    have hn : hasNil T = false := by
+      cases h : hasNil T with
+      | false => rfl
+      | true =>
+        have := hout [] ((hasNil_iff T).1 h) (by simp [List.isPrefixOf])
+        cases this
+    rw [valAt_cons] at hv
+    cases hc : child? l d with
+    | none => rw [hc] at hv; cases hv
+    | some c0 =>
+      rw [hc] at hv
+      simp only [Option.bind_some] at hv
+      rw [updAll_eq, hn]
+      simp only [Bool.false_eq_true, if_false, valAt_cons, child?_mapKids, hc, Option.map_some, Option.bind_some]
+      apply updAll_hit_outer m q (strip l T) c0 c ((mem_strip l T q).2 hp) _ hv
+      intro p' hp' hpre
+      have := hout (l :: p') ((mem_strip l T p').1 hp') (by simpa [isPrefixOf_cons_cons] using hpre)
+      simpa using this
+
 /-! ## Remove through a descent: the remover at the selected parents -/
 
 theorem WFL_dropIdx (p : Nat → Bool) : ∀ (xs : List JV) (o : Nat), WFL xs → WFL (dropIdx p o xs)
